@@ -538,6 +538,21 @@ def run_check(prop, tier, seed, budget_s=None, workers=None, want_digests=False,
         "known_finding_hits": dict(sorted(total["soft_hits"].items())),
         "other_property_oracle_hits_ignored": dict(sorted(total["foreign_hits"].items())),
     }
+    # reach: fault kinds, probes and oracles that the committed baseline (tools/gen_reach.py: hit under every one of several seeds of
+    # the quick tier) says this workload reaches; a name missing here means the workload or fault mix lost reach (not a violation)
+    try:
+        with open(os.path.join(VERIF, "reach.json")) as f:
+            base = json.load(f).get(prop, {})
+    except Exception:
+        base = {}
+    missing = {}
+    for fam, key in (("faults", "faults_fired"), ("probes", "probes"), ("oracles", "oracle_evaluations")):
+        miss = [n for n in base.get(fam, []) if not cov[key].get(n)]
+        if miss:
+            missing[fam] = miss
+    cov["reach"] = {"baseline_names": sum(len(base.get(f_, [])) for f_ in ("faults", "probes", "oracles")), "not_reached_in_this_run": missing}
+    if missing and not quiet:
+        print(f"REACH-GAP {prop}: expected by reach.json but not hit in this run: {missing}")
     ev = {
         "property_id": prop,
         "tier": tier,
